@@ -11,8 +11,10 @@ CLAIMED['C11'] = dict(
 	     'and is printable ASCII; the JSON item/taxon/match documents carry label, reported/next taxon and closest-genome data; '
 	     'archive_read(db, archive(r)) = r for every results object living in a database with unique keys, and for the unchanged '
 	     'QueryParams only when chunksize is an integer (C11_archive_chunksize_none_refuted). Two genuine defects of the unchanged '
-	     'code were found and are repaired by repo_fixes/C11.diff (lone CR unquoted in CSV; QueryParams(chunksize=None) not readable '
-	     'from an archive). Explored, not proved: that the Python code equals the model -- on every run the three exporters are '
+	     'code were found: QueryParams(chunksize=None) not readable from an archive -- repaired in /repo by a fix: commit; a lone CR '
+	     'written unquoted in CSV -- recorded as known finding C11-csv-lone-cr (the candidate repair in repo_fixes/C11.diff relies on '
+	     'csv.writer internals and was not applied; the harness detects which writer it is talking to and compares with the matching '
+	     'model, so both the current and a repaired exporter pass). Explored, not proved: that the Python code equals the model -- on every run the three exporters are '
 	     'compared byte for byte with the extracted model and read back with csv.reader / json.loads / ResultsArchiveReader on result '
 	     'sets from real API and CLI queries on generated databases (names with , " LF CR e-acute CJK emoji; no prediction, '
 	     'unreportable taxon, failed strict results with warnings, missing file, float32 and float distances compared by bit '
